@@ -142,7 +142,10 @@ func runFull(cfg *vh.Config, res *vh.Result, caseNo *int, texts []string, how []
 		} else if conv {
 			res.Count("full_conversion_error")
 		} else {
+			// parser / walker / loader stage: the walker stream compares those outcomes exactly
 			res.Count("full_other_error")
+			*caseNo++
+			continue
 		}
 		terms = append(terms, fmt.Sprintf("CFull %s %s %s %s", vh.BytesTerm(texts[i]), b(accepted), b(conv), spansCoq(sp)))
 		recs = append(recs, vh.CaseRec{Case: *caseNo, Stream: "full", Input: in, Impl: map[string]any{"accepted": accepted, "conversion_stage": conv, "positions": sp}})
@@ -183,10 +186,11 @@ func runWalk(cfg *vh.Config, res *vh.Result, caseNo *int, texts []string, how []
 				break
 			}
 			if o.FromParser {
+				// the parser's diagnostics are compared one by one by the front stream (CFrontErrs)
 				res.Count("walk_err_parser")
-			} else {
-				res.Count("walk_err_walker")
+				break
 			}
+			res.Count("walk_err_walker")
 			terms = append(terms, fmt.Sprintf("CWalk %s (WObsErrs %s %s)", vh.BytesTerm(src), b(o.FromParser), spansCoq(sp)))
 			recs = append(recs, vh.CaseRec{Case: *caseNo, Stream: "walk", Input: in, Impl: map[string]any{"from_parser": o.FromParser, "errors": o.ErrPos}})
 		}
